@@ -45,7 +45,7 @@ PREFIX = ["USER anonymous", "EPSV"]
 def run_on(backend, hist):
     """returns list of observations per step: (classes, data, names, tree)"""
     conf = Conf(USERS, TREE, backend=backend, payload=PAYLOAD)
-    two = any(sym.startswith("2:") for sym in hist)
+    two = any(sym.startswith("2:") or "|2:" in sym for sym in hist)
     rig = conf.new_rig(n_sessions=2 if two else 1)
     out = []
     try:
@@ -73,7 +73,11 @@ def run_on(backend, hist):
             codes = [c for c, _ in r]
             if mid is not None and codes and codes[-1][:1] == "1" and s.data is not None:
                 rig_ev(0, "@dsend " + PAYLOAD[:1].decode())
-                rm = rig_ev(0, mid) or []
+                if mid.startswith("2:"):
+                    # ... by the other session, between the two pieces of this session's upload
+                    rm = _ev(1, mid[2:]) or []
+                else:
+                    rm = rig_ev(0, mid) or []
                 rig_ev(0, "@dsend " + PAYLOAD[1:].decode())
                 r2 = rig_ev(0, "@dclose") or []
                 rig.collect()
@@ -250,7 +254,14 @@ def two_session_histories(tier):
         for act in ("MLST b", "MLST new", "T:RETR new", "T:RETR b", "DELE b", "DELE new"):
             out.append([look, "2:RNFR b", "2:RNTO new", act])
             out.append([look, "2:RNFR a/x", "2:RNTO b", act.replace("new", "a/x")])
-    return out if tier != "quick" else out[::3] + out[-48:]
+    # another session acts on the file while this session's upload to it is half-way
+    mids = []
+    for up in ("M:STOR b", "M:APPE b", "M:STOR new", "M:STOR a/x"):
+        target = up.split(" ")[1]
+        for other in (f"2:DELE {target}", f"2:MLST {target}", f"2:RNFR {target}", "2:MKD new", f"2:RMD {target}", "2:DELE b"):
+            for after in (f"MLST {target}", f"T:RETR {target}", "T:LIST a"):
+                mids.append([f"{up}|{other}", after])
+    return (out if tier != "quick" else out[::3] + out[-48:]) + mids
 
 
 def two_sessions(tier):
